@@ -468,7 +468,7 @@ func (fr *Frame) enterBlock(b *ssa.BasicBlock) *State {
 	if li != nil {
 		mod := fr.loopModSet(li)
 		save := fr.cur
-		st.heap = fr.keepLocals(vc.heapHavoc(st.heap, mod), li)
+		st.heap = fr.havocKeep(st.heap, mod, li)
 		_ = save
 		st.now = vc.fresh("now", "Int")
 		// now is monotone
